@@ -494,8 +494,10 @@ theorem px_wsDrop {w : World} (c : Nat) (p : PollX w) : PollX (wsDrop w c) := by
   · split
     · rename_i ti hti
       have hk := trOfConn_kind _ c ti hti
-      refine px_trOnCloseBase _ ?_ (fun a => by rw [hk] at a; cases a)
-      px_auto
+      split
+      · apply px_trOnError; px_auto
+      · refine px_trOnCloseBase _ ?_ (fun a => by rw [hk] at a; cases a)
+        px_auto
     · px_auto
 
 /-! ### the application, timers, operations -/
